@@ -4,6 +4,7 @@ import (
 	"context"
 	"fmt"
 	"math/big"
+	"time"
 
 	"github.com/vipnode/vipnode/v2/internal/verifapi"
 	"github.com/vipnode/vipnode/v2/pool/store"
@@ -63,7 +64,9 @@ func VerifC02Pool() {
 		}
 		dt := verifapi.Dur(fmt.Sprint("dt", k))
 		verifapi.Assume(dt >= 0)
-		verifapi.Assume(dt < 100000000000) // the host stays inside the 120s window
+		// the gap may be longer than the 120 s expiry window (a client that was away): the host checks in
+		// again at the new instant, and a tracked record that went stale meanwhile is handled below
+		verifapi.Assume(dt < int64OrDur(verifapi.Param("maxgap", 100)))
 		now := last.Add(dt)
 		verifapi.SetNow(now)
 		// the host keeps checking in
@@ -245,3 +248,6 @@ func VerifC11Pool() {
 	}
 	verifapi.Assert(len(resp.ActivePeers) <= nh, "c11.pool.no-extra-active")
 }
+
+// int64OrDur: seconds to Duration.
+func int64OrDur(sec int) time.Duration { return time.Duration(sec) * time.Second }
